@@ -30,11 +30,11 @@ def clean_tx(rng, tier):
     """a random well-formed transaction outside the recorded round-trip finding classes (those are reported by the transaction harness)"""
     while True:
         version, ins, outs, locktime, segwit = rand_tx(rng, 'quick')
-        zero_item = any(i[2] == b'\x00' for i in ins) or any(o[1] == b'\x00' for o in outs) or any(w in (b'\x00', b'') for i in ins for w in i[4])
-        odd_sig = segwit and any(i[2] and i[4] and not (len(i[2]) == 23 and i[2][:3] == b'\x16\x00\x14') for i in ins)
-        coinbase_wit = segwit and any(i[0] == b'\x00' * 32 and i[4] for i in ins)
-        trunc = any(truncated_push(sc) for sc in [i[2] for i in ins] + [o[1] for o in outs])
-        if not (zero_item or odd_sig or coinbase_wit or trunc):
+        # the recorded finding F-varstr-00 (an OUTPUT script or WITNESS item that is the single byte 00, or an empty witness item) is reported by
+        # the transaction harness; a scriptSig of 00 round-trips and is kept (both block readers must handle it)
+        zero_item = (any(o[1] == b'\x00' for o in outs) or any(w in (b'\x00', b'') for i in ins for w in i[4])
+                     or any(i[2] == b'\x00' and i[0] == b'\x00' * 32 for i in ins))        # ... or a COINBASE scriptSig of 00 (no length-byte special case there)
+        if not zero_item:
             return version, ins, outs, locktime, segwit
 
 
@@ -67,6 +67,10 @@ def run(tier, seed, opens):
         nonce = rng.getrandbits(32)
         header = wire.le(version, 4) + prev[::-1] + merkle[::-1] + wire.le(tm, 4) + wire.le(bits, 4) + wire.le(nonce, 4)
         txs = [clean_tx(rng, tier) for _ in range(rng.choice([1, 1, 2, 3, 6]))]
+        if rng.random() < 0.3:
+            v, ins, outs, l, sw = txs[-1]
+            if not sw and ins[0][0] != b'\x00' * 32:
+                txs[-1] = (v, [(ins[0][0], ins[0][1], b'\x00', ins[0][3], [])] + list(ins[1:]), outs, l, sw)
         raws = [wire.ser_tx(v, i, o, l, s) for (v, i, o, l, s) in txs]
         txids = [dsha(wire.ser_tx(v, i, o, l, False))[::-1].hex() for (v, i, o, l, s) in txs]
         raw = header + wire.compact_size(len(txs)) + b''.join(raws)
